@@ -489,6 +489,12 @@ impl GroupedQuantity {
         }
     }
 
+    /// Keeps all the quantities of `other` in this group without adding them
+    /// up. For when there is no converter at hand to [merge](Self::merge).
+    pub(crate) fn extend_unmerged(&mut self, other: Self) {
+        self.other.extend(other.into_vec());
+    }
+
     /// Calls [`Quantity::fit`] on all possible underlying units
     ///
     /// This will try to avoid fitting quantities that will produce an error
